@@ -90,6 +90,7 @@ struct sched_rec {
     unsigned cnt;                // link layer's connection_event_counter() at the call
     unsigned chidx;              // link layer's current_channel_index() at the call
     bool pending_tx;             // link layer's pending_outgoing_data_available() at the call
+    std::uint8_t rx_phy, tx_phy; // PHYs configured by radio_set_phy() at the call
     long anchor_event;           // central event number that produced T0 (-1: the CONNECT_IND)
     unsigned anchor_cnt;         // link layer counter of the scheduling record that produced T0 (0xffff for the CONNECT_IND)
     bool in_past;
@@ -100,7 +101,7 @@ struct sched_rec {
     event_flags flags;           // as reported to end_event()
     unsigned exchanges;
     bool rx_buffer_missing;      // at least one PDU of the central could not be stored (receive ring full)
-    sched_rec() : seq(0), t_call(0), t0(0), channel(0), start(0), end(0), interval(0), cnt(0), chidx(0), pending_tx(false), anchor_event(-1),
+    sched_rec() : seq(0), t_call(0), t0(0), channel(0), start(0), end(0), interval(0), cnt(0), chidx(0), pending_tx(false), rx_phy(1), tx_phy(1), anchor_event(-1),
                   anchor_cnt(0xffff), in_past(false), outcome(o_pending), heard_event(-1), t_anchor(0), t_outcome(0), exchanges(0), rx_buffer_missing(false) {}
 };
 
@@ -279,6 +280,7 @@ public:
         r.cnt = cb().connection_event_counter();
         r.chidx = cb().current_channel_index();
         r.pending_tx = this->pending_outgoing_data_available();
+        r.rx_phy = rx_phy_; r.tx_phy = tx_phy_;
         r.anchor_event = anchor_event_;
         r.anchor_cnt = anchor_cnt_;
         r.in_past = t0_ + static_cast<vtime>(r.start) < now_ + static_cast<vtime>(opt_.setup_margin_us);
